@@ -189,7 +189,7 @@ impl Property for C13 {
     fn runs(&self, tier: Tier) -> u64 {
         match tier {
             Tier::Quick => 30000,
-            Tier::Thorough => 4000000,
+            Tier::Thorough => 6000000,
         }
     }
 
